@@ -137,3 +137,106 @@ theorem sqrtTail_div_zero_or_ok (d : Eig12 ℝ) :
   split_ifs <;> simp
 
 end Refine.Model.Matrix
+
+namespace Refine.Model.Matrix
+open Refine Refine.ScalarReal
+open _root_.Matrix
+
+/-- the rows of an orthonormal system are orthonormal too (scalar form) -/
+theorem Orthonormal.rows_eqs {d : Eig12 ℝ} (h : Orthonormal d) :
+    d.x0 * d.x0 + d.x1 * d.x1 + d.x2 * d.x2 = 1 ∧ d.y0 * d.y0 + d.y1 * d.y1 + d.y2 * d.y2 = 1 ∧
+    d.z0 * d.z0 + d.z1 * d.z1 + d.z2 * d.z2 = 1 ∧ d.x0 * d.y0 + d.x1 * d.y1 + d.x2 * d.y2 = 0 ∧
+    d.x0 * d.z0 + d.x1 * d.z1 + d.x2 * d.z2 = 0 ∧ d.y0 * d.z0 + d.y1 * d.z1 + d.y2 * d.z2 = 0 := by
+  have hm := h.rows
+  rw [Eig12.V_transpose, one_fin_three] at hm
+  simp only [Eig12.V, mul_fin_three] at hm
+  have e := fun i j => congrFun (congrFun hm i) j
+  have h00 := e 0 0; have h01 := e 0 1; have h02 := e 0 2
+  have h11 := e 1 1; have h12 := e 1 2; have h22 := e 2 2
+  simp at h00 h01 h02 h11 h12 h22
+  exact ⟨h00, h11, h22, h01, h02, h12⟩
+
+/-- a matrix with an orthonormal eigen system and positive eigenvalues is positive definite -/
+theorem vtMv_formM_pos (d : Eig12 ℝ) (ho : Orthonormal d) (hpos : 0 < d.l0 ∧ 0 < d.l1 ∧ 0 < d.l2)
+    (x : Vec3 ℝ) (hx : x.x ≠ 0 ∨ x.y ≠ 0 ∨ x.z ≠ 0) : 0 < vtMv (formM d) x := by
+  have hq : vtMv (formM d) x =
+      d.l0 * (d.x0 * x.x + d.y0 * x.y + d.z0 * x.z) ^ 2 +
+      d.l1 * (d.x1 * x.x + d.y1 * x.y + d.z1 * x.z) ^ 2 +
+      d.l2 * (d.x2 * x.x + d.y2 * x.y + d.z2 * x.z) ^ 2 := by
+    simp only [vtMv, formM, mul_eq, add_eq]; ring
+  rw [hq]
+  set a0 := d.x0 * x.x + d.y0 * x.y + d.z0 * x.z with ha0
+  set a1 := d.x1 * x.x + d.y1 * x.y + d.z1 * x.z with ha1
+  set a2 := d.x2 * x.x + d.y2 * x.y + d.z2 * x.z with ha2
+  obtain ⟨r1, r2, r3, r4, r5, r6⟩ := ho.rows_eqs
+  have ex : x.x = d.x0 * a0 + d.x1 * a1 + d.x2 * a2 := by
+    rw [ha0, ha1, ha2]; linear_combination (-x.x) * r1 - x.y * r4 - x.z * r5
+  have ey : x.y = d.y0 * a0 + d.y1 * a1 + d.y2 * a2 := by
+    rw [ha0, ha1, ha2]; linear_combination (-x.x) * r4 - x.y * r2 - x.z * r6
+  have ez : x.z = d.z0 * a0 + d.z1 * a1 + d.z2 * a2 := by
+    rw [ha0, ha1, ha2]; linear_combination (-x.x) * r5 - x.y * r6 - x.z * r3
+  by_contra hcon
+  rw [not_lt] at hcon
+  have t0 : 0 ≤ d.l0 * a0 ^ 2 := mul_nonneg hpos.1.le (sq_nonneg _)
+  have t1 : 0 ≤ d.l1 * a1 ^ 2 := mul_nonneg hpos.2.1.le (sq_nonneg _)
+  have t2 : 0 ≤ d.l2 * a2 ^ 2 := mul_nonneg hpos.2.2.le (sq_nonneg _)
+  have z0 : a0 = 0 := by
+    have : d.l0 * a0 ^ 2 = 0 := by linarith
+    rcases mul_eq_zero.mp this with h | h
+    · exact absurd h hpos.1.ne'
+    · exact pow_eq_zero_iff (by norm_num) |>.mp h
+  have z1 : a1 = 0 := by
+    have : d.l1 * a1 ^ 2 = 0 := by linarith
+    rcases mul_eq_zero.mp this with h | h
+    · exact absurd h hpos.2.1.ne'
+    · exact pow_eq_zero_iff (by norm_num) |>.mp h
+  have z2 : a2 = 0 := by
+    have : d.l2 * a2 ^ 2 = 0 := by linarith
+    rcases mul_eq_zero.mp this with h | h
+    · exact absurd h hpos.2.2.ne'
+    · exact pow_eq_zero_iff (by norm_num) |>.mp h
+  rw [z0, z1, z2] at ex ey ez
+  rcases hx with h | h | h
+  · apply h; rw [ex]; ring
+  · apply h; rw [ey]; ring
+  · apply h; rw [ez]; ring
+
+/-- the three quadratic forms of `combine` (shared tail of intersect / bound) in the basis `w = Wᵀ H x` -/
+theorem combine_forms (clamp : ℝ → ℝ) (m1 m2 h nh m12 : M6 ℝ) (d2 : Eig12 ℝ)
+    (hHH : h.toMat * h.toMat = m1.toMat) (hHN : h.toMat * nh.toMat = 1)
+    (h2 : diagM (multM0M1M0 nh m2) = .ok d2) (he2 : IsEigSys d2 (multM0M1M0 nh m2))
+    (hc : combine clamp h nh m2 = .ok m12) (x : Vec3 ℝ) :
+    ∃ w : Fin 3 → ℝ, vtMv m1 x = ∑ k, w k ^ 2 ∧ vtMv m2 x = ∑ k, d2.lam k * w k ^ 2 ∧
+      vtMv m12 x = ∑ k, clamp (d2.lam k) * w k ^ 2 := by
+  unfold combine at hc
+  dsimp only at hc
+  rw [h2] at hc
+  dsimp only at hc
+  injection hc with hc
+  have hB : nh.toMat * m2.toMat * nh.toMat = d2.V * diagonal d2.lam * d2.Vᵀ := by
+    rw [← toMat_multM0M1M0, ← he2.2, toMat_formM]
+  obtain ⟨c1, c2, c3⟩ := combine_core h.toMat nh.toMat m2.toMat d2.V d2.lam clamp
+    (M6.toMat_transpose h) hHN ((orthonormal_iff d2).mp he2.1) hB x.toFun
+  refine ⟨d2.Vᵀ *ᵥ (h.toMat *ᵥ x.toFun), ?_, ?_, ?_⟩
+  · rw [vtMv_eq, ← hHH, c1]
+  · rw [vtMv_eq, c2]
+  · rw [vtMv_eq, ← hc, toMat_multM0M1M0, toMat_formM, mapEig_V, mapEig_lam, c3]
+
+/-- with non-negative eigenvalues `sqrt_abs_m` is `sqrt_m` -/
+theorem sqrtAbsM_eq_sqrtM (m : M6 ℝ) (d : Eig12 ℝ) (h1 : diagM m = .ok d)
+    (hnn : 0 ≤ d.l0 ∧ 0 ≤ d.l1 ∧ 0 ≤ d.l2) : sqrtAbsM m = sqrtM m := by
+  unfold sqrtAbsM sqrtM
+  rw [h1]
+  have hg : (Scalar.lt d.l0 Scalar.zero || Scalar.lt d.l1 Scalar.zero || Scalar.lt d.l2 Scalar.zero) = false := by
+    rw [Bool.or_eq_false_iff, Bool.or_eq_false_iff, lt_false_iff, lt_false_iff, lt_false_iff, zero_eq]
+    exact ⟨⟨hnn.1, hnn.2.1⟩, hnn.2.2⟩
+  simp only [hg, Bool.false_eq_true, if_false]
+  have : mapEig Scalar.cabs d = d := by
+    rw [← mapEig_id d]
+    apply mapEig_congr <;> simp only [mapEig_id, cabs_eq]
+    · exact abs_of_nonneg hnn.1
+    · exact abs_of_nonneg hnn.2.1
+    · exact abs_of_nonneg hnn.2.2
+  rw [this]
+
+end Refine.Model.Matrix
